@@ -160,6 +160,21 @@ func c09CheckCmp(w *mon.W, a, b *c09Enc) bool {
 			"a_bits": a.bits, "b_bits": b.bits, "got": got, "expected": exp})
 		return false
 	}
+	// every fourth call again with both encodings as views into larger, poisoned arrays (a caller keeps many
+	// encodings in one buffer): same result, poison intact
+	if n, _ := w.State["c09n"].(int); n&3 == 0 {
+		w.State["c09n"] = n + 1
+		da, ga := dirtyB(a.enc)
+		db, gb := dirtyB(b.enc)
+		g2 := bitstr.Cmp(da, db)
+		if g2 != exp || !ga() || !gb() || string(da) != string(a.enc) || string(db) != string(b.enc) {
+			w.Fail("Cmp/depends-on-or-writes-memory-around-the-arguments", mon.D{"a": fmt.Sprintf("%x", a.enc), "b": fmt.Sprintf("%x", b.enc), "got": g2, "expected": exp,
+				"poison_around_a_intact": ga(), "poison_around_b_intact": gb()})
+			return false
+		}
+	} else {
+		w.State["c09n"] = n + 1
+	}
 	return true
 }
 
@@ -209,6 +224,11 @@ func c09CheckUpto(w *mon.W, a string, b *c09Enc) bool {
 	}
 	if string(ab) != a {
 		w.Fail("CmpUpto/input-modified", d("CmpUpto", got))
+		return false
+	}
+	// b as a view into a larger, poisoned array
+	if db, gb := dirtyB(b.enc); bitstr.CmpUpto(ab, db) != exp || bitstr.StrCmpUpto(a, db) != exp || int(bitstr.Len(db)) != nb || !gb() || string(db) != string(b.enc) {
+		w.Fail("CmpUpto/depends-on-or-writes-memory-around-b", d("CmpUpto(b with dirty spare capacity)", bitstr.CmpUpto(ab, db)))
 		return false
 	}
 	// the same bytes inside a larger buffer whose spare capacity is dirty: bytes beyond len(a) are not
